@@ -431,10 +431,8 @@ theorem regLe_tdBase (w : World) (i : Nat) (s : Sess) : RegLe w (tdBase w i s) :
 theorem regLe_teardown (w : World) (i : Nat) (s : Sess) : RegLe w (teardown w i s).1 := by
   rw [teardown_eq]
   split
+  · exact (regLe_tdBase w i s).trans (q_sessDelete _ _ _).reg
   · exact regLe_tdBase w i s
-  · split
-    · exact regLe_tdBase w i s
-    · exact (regLe_tdBase w i s).trans (q_sessDelete _ _ _).reg
 
 theorem ext_teardown (w : World) (i : Nat) (c : String) (s : Sess) (hs : (w.node i).sess ("S" ++ c) = some s) :
     Ext c w (teardown w i s).1 := by
